@@ -250,6 +250,8 @@ SliceIdx(n, sa, sb, sc) ==
         IN [j \in 1..cnt |-> st1 + (j - 1) * step]
 
 \* normalise an int index against length n: 1-based position, or 0 when out of range
+\* list.pop / list.insert take a C ssize_t: an index of 20 or more digits does not fit (OverflowError, not IndexError)
+SsizeFit(i) == IF Len(i.digs) < 19 THEN "fits" ELSE IF Len(i.digs) > 19 THEN "no" ELSE "edge"
 NormIdx(i, n) == LET x == BoundVal(i) IN
                  IF x < 0 THEN (IF x + n < 0 THEN 0 ELSE x + n + 1) ELSE IF x >= n THEN 0 ELSE x + 1
 
@@ -678,6 +680,7 @@ CallAtomic(h, name, args) ==
              ELSE IF a1.t # "list" THEN R(h, OtherErr("AttributeError"))
              ELSE LET i == PyInt(a2) IN
                   IF ~IsIntRep(i) THEN R(h, i)
+                  ELSE IF SsizeFit(i) # "fits" THEN R(h, IF SsizeFit(i) = "no" THEN OtherErr("OverflowError") ELSE Unspec("index near 2^63"))
                   ELSE LET x == BoundVal(i)  len == LenOf(h, a1)
                            p == IF x < 0 THEN Max2(x + len, 0) ELSE Min2(x, len) IN
                        R([h EXCEPT ![a1.addr].items = SeqInsertAt(@, p + 1, a3)], None)
@@ -690,6 +693,7 @@ CallAtomic(h, name, args) ==
              ELSE R([h EXCEPT ![a1.addr].items = SubSeq(@, 1, len - 1)], Items(h, a1)[len]))
         ELSE LET i == PyInt(a2) IN
              IF ~IsIntRep(i) THEN R(h, i)
+             ELSE IF SsizeFit(i) # "fits" THEN R(h, IF SsizeFit(i) = "no" THEN OtherErr("OverflowError") ELSE Unspec("index near 2^63"))
              ELSE LET p == NormIdx(i, LenOf(h, a1)) IN
                   IF p = 0 THEN R(h, ParserErr)
                   ELSE R([h EXCEPT ![a1.addr].items = SeqRemoveAt(@, p)], Items(h, a1)[p])
